@@ -397,6 +397,9 @@ func (w *AWorld) execAPI(a *Agent, c *Call) {
 			b["oldpassword"] = c.OldPW
 		}
 		code, m, c.Body = w.postJSON(a, "/api/update", b)
+	case "reauth":
+		// what a replica sends for a remote hash upgrade: the old password and no new one
+		code, m, c.Body = w.postJSON(a, "/api/update", map[string]any{"username": c.User, "oldpassword": c.PW})
 	case "set-admin":
 		code, m, c.Body = w.postJSON(a, "/api/set-admin", map[string]any{"session": c.Session, "username": c.User, "admin": c.Admin})
 	case "list":
